@@ -323,12 +323,12 @@ def run_behaviour(bindir, beh, *, root, cap, k, types, ctxs, fill=None, epz=None
     return out, problems
 
 
-def gen_cfg2(name, *, cap, k, types_a, types_b, ctxs, gen_len, max_crash=3, max_flush=3, max_compact=3):
+def gen_cfg2(name, *, cap, k, types_a, types_b, ctxs, gen_len, max_crash=3, max_flush=3, max_compact=3, lock=False):
     """Write a Storage2Gen cfg (two active shards, as-built parameterisation) into .work and return its path."""
     d = core.WORK / "cfg"
     d.mkdir(parents=True, exist_ok=True)
     p = d / f"{name}.cfg"
-    p.write_text(f"""SPECIFICATION GenSpec
+    p.write_text(f"""SPECIFICATION {"LockSpec" if lock else "GenSpec"}
 CONSTANTS
   Cap = {cap}
   K = {k}
@@ -340,8 +340,8 @@ CONSTANTS
   MaxFlush = {max_flush}
   MaxCompact = {max_compact}
   Fix = {{}}
-  FlushCrash = {_set(ALL_FLUSH_CRASH)}
-  CompactCrash = {_set(ALL_COMPACT_CRASH)}
+  FlushCrash = {_set([] if lock else ALL_FLUSH_CRASH)}
+  CompactCrash = {_set([] if lock else ALL_COMPACT_CRASH)}
   QuiescentCrash = TRUE
   CleanRestarts = TRUE
   GenLen = {gen_len}
@@ -410,19 +410,32 @@ def run_pair(bindir, beh, *, root, cap, k, types_a, types_b, ctxs, shards, sh_a,
             d["shard"] = sh_a if c["sh"] == "A" else sh_b
         flat.append(d)
     back = {v: kk for kk, v in list(names_a.items()) + list(names_b.items())}
-    recs, problems = run_behaviour(bindir, flat, root=root, cap=cap, k=k, types=list(types_a) + list(types_b),
+    recs, problems = run_behaviour(bindir, flat, root=root, cap=cap, k=k, types=list(dict.fromkeys(list(types_a) + list(types_b))),
                                    ctxs=(sorted(back) if with_replay else []),
                                    shards=shards, shard=sh_a, ctx_names=dict((v, v) for v in back), prepared=True, keep=keep)
+    shared = set(types_a) & set(types_b)
+
+    def predicted(i, other, t):
+        o = beh[i]["obs" + other]["rows"].get(t)
+        return 0 if o is None else len(o["seg"]) + len(o["mem"])
+
     out = {}
     for which, sh in (("A", sh_a), ("B", sh_b)):
         pb = project2(beh, which)
+        own_names = set((names_a if which == "A" else names_b).values())
+        other = "B" if which == "A" else "A"
         rs = []
         for rec in recs:
             real = rec["real"]
             if real is not None:
                 real = dict(real)
-                real["q"] = {t: (None if rows is None else [(kk, back.get(cx, cx), ty, e) for (kk, cx, ty, e) in rows])
+                # a type that lives on both shards: the rows of the fanned-out read belong to the shard their context is
+                # routed to; the COUNT of this shard's view is the total minus what the other shard's instance predicts
+                real["q"] = {t: (None if rows is None else [(kk, back.get(cx, cx), ty, e) for (kk, cx, ty, e) in rows
+                                                            if t not in shared or cx in own_names])
                              for t, rows in real["q"].items()}
+                real["count"] = {t: (n if (n is None or t not in shared) else n - predicted(rec["i"], other, t))
+                                 for t, n in real["count"].items()}
                 if real.get("fs_all"):
                     real["fs"] = real["fs_all"][sh]
                 if with_replay:
@@ -449,7 +462,13 @@ def campaign2(chk, tag, plans, ctxs, bindir, judge, rnd, types_a=("a", "b"), typ
     stats = Counter()
     tot_feat, cov_feat = set(), set()
     for pl in plans:
-        cfgp = gen_cfg2(pl["name"], cap=pl["cap"], k=pl["k"], types_a=ta, types_b=tb, ctxs=ctxs, gen_len=pl["gen_len"])
+        if pl.get("lock"):
+            # lockstep family: the same event types on both shards, every command of A repeated on B (same labels / ids / uids)
+            ta = tb = list(types_a)
+        else:
+            ta, tb = list(types_a), list(types_b)
+        cfgp = gen_cfg2(pl["name"], cap=pl["cap"], k=pl["k"], types_a=ta, types_b=tb, ctxs=ctxs, gen_len=pl["gen_len"],
+                        lock=bool(pl.get("lock")))
         behs, _r = behaviours2(cfgp, n=pl["n_sim"], gen_len=pl["gen_len"], seed=core.seed() + 31 * pl["cap"])
         rnd.shuffle(behs)
         # keep behaviours in which both shards store
